@@ -129,6 +129,12 @@ func enumerate(tier string, seed uint64) []shape {
 	for _, e := range d1 {
 		add("field", e, family(e), 2)
 	}
+	// `[]uint8` is the Go type `[]byte` spelled differently: the generator treats it as a slice of uint8, the
+	// reflection-based harness cannot tell the spellings apart, so these shapes are generated and compiled (C14)
+	// but not registered for the behavioural runners
+	for _, e := range []string{"[]uint8", "*[]uint8", "map[string][]uint8"} {
+		add("conly", e, "conly:"+family(e), 2)
+	}
 	// depth-3 field shapes, sampled from VERIF_SEED
 	r := &rng{s: (seed + 0x632BE59BD9B4E019) * 0xFF51AFD7ED558CCD}
 	r.next()
@@ -205,7 +211,7 @@ func writeDecl(dir string, shapes []shape) error {
 	sb.WriteString("// Code generated by gengram (verification harness). DO NOT EDIT.\npackage decl\n" + helperDecls + "\n")
 	for _, s := range shapes {
 		switch s.Kind {
-		case "field":
+		case "field", "conly":
 			fmt.Fprintf(&sb, "type %s struct {\n\tA int32\n\tF %s\n\tZ []byte\n}\n\n", s.Name, s.Expr)
 		case "solo":
 			fmt.Fprintf(&sb, "type %s struct {\n\tF %s\n}\n\n", s.Name, s.Expr)
@@ -302,6 +308,9 @@ func phaseMain(root string) {
 			continue
 		}
 		alive = append(alive, s.Kind+":"+s.Expr)
+		if s.Kind == "conly" {
+			continue
+		}
 		fmt.Fprintf(&sb, "\tcorr.RegisterShape(\"grammar\", %q, decl.%s{}, decl_ins.%sInspector{}, %q, %q, %q)\n", s.Name, s.Name, s.Name,
 			filepath.Join(root, "xml", "decl", strings.ToLower(s.Name)+".xml"), s.Expr, s.Family)
 	}
